@@ -397,6 +397,7 @@ pub fn run(ctx: &Ctx) -> Result<(), String> {
 
 pub fn replay_case(c: &Value) -> Result<Option<String>, String> {
     match c["kind"].as_str() {
+        Some("schedule") => crate::sched::replay_schedule(c),
         Some("health-history") => {
             crate::inproc::init();
             let h: Vec<HEv> = c["events"].as_array().ok_or("events")?.iter().map(|e| match e.as_str() { Some("Connect") => HEv::Connect, Some("Send") => HEv::Send, _ => HEv::Step }).collect();
